@@ -76,9 +76,11 @@ fn ctx0(args: &Args) -> Ctx {
 
 // ------------------------------------------------------------------------------------------ sessions
 
-fn skip_api(f: &BaseFile, api: &str) -> bool {
+fn skip_api(c: &Ctx, f: &BaseFile, api: &str) -> bool {
     // flight_data_to_batches has no dictionary support by contract (it passes an empty dictionary map)
-    f.fmt == "flight" && api == "flight_utils" && f.name == "nested"
+    (f.fmt == "flight" && api == "flight_utils" && f.name == "nested")
+        // quick tier: the encoding-zoo files are read by the two APIs that decode values
+        || (!c.thorough && f.focus == "enc" && api != "arrow_reader" && api != "rows")
 }
 
 fn drive_sessions(c: &Ctx) -> Vec<Sess> {
@@ -87,7 +89,7 @@ fn drive_sessions(c: &Ctx) -> Vec<Sess> {
     for (fi, f) in c.files.iter().enumerate() {
         let n = f.bytes.len();
         for (ai, api) in files::apis(f.fmt).iter().enumerate() {
-            if skip_api(f, api) {
+            if skip_api(c, f, api) {
                 continue;
             }
             let mut push = |p: Plan| out.push(Sess::File { file: fi, api, plan: p });
@@ -100,7 +102,7 @@ fn drive_sessions(c: &Ctx) -> Vec<Sess> {
             let typed = (f.name.starts_with('t') && f.name[1..].chars().all(|c| c.is_ascii_digit()))
                 || (f.fmt == "parquet" && ["dict_brotli", "delta_lz4", "dict_lz4raw", "bss_plain"].contains(&f.name.as_str()));
             let primary = *api == files::apis(f.fmt)[0] || (f.fmt == "parquet" && *api == "metadata");
-            let budget = if c.thorough { 100 } else { 28 };
+            let budget = if c.thorough { 100 } else { 24 };
             let mut positions: Vec<usize> = vec![];
             if (n <= 300 && primary) || (c.thorough && !typed && primary) {
                 positions.extend(0..n);
@@ -204,7 +206,7 @@ fn gen_sessions(c: &Ctx, cases: &str) -> Vec<Sess> {
         let apis = files::apis(f.fmt);
         let apis = if c.thorough { apis } else { &apis[..apis.len().min(2)] };
         for (ai, api) in apis.iter().enumerate() {
-            if !skip_api(f, api) {
+            if !skip_api(c, f, api) {
                 out.push((fi, ai, Sess::File { file: fi, api, plan: p }));
             }
         }
@@ -659,7 +661,8 @@ fn shapes(args: &Args) {
         let regs: Vec<Value> = b.regions.iter().map(|r| json!({"k": r.kind, "g": r.grp, "w": r.hi - r.lo, "e": r.encl})).collect();
         nr += regs.len();
         nf += 1;
-        writeln!(f, "{}", json!({"f": fi, "fmt": b.fmt, "name": b.name, "n": b.bytes.len(), "regs": regs})).unwrap();
+        let focus = if c.thorough { "" } else { b.focus };
+        writeln!(f, "{}", json!({"f": fi, "fmt": b.fmt, "name": b.name, "n": b.bytes.len(), "focus": focus, "regs": regs})).unwrap();
     }
     println!("DRIVER c08-shapes files={nf} regions={nr}");
 }
@@ -752,7 +755,16 @@ fn main() {
             }
             println!("{m:?} total={}", m.values().sum::<usize>());
             for f in &c.files {
-                println!("{} {} {} bytes {} regions", f.fmt, f.name, f.bytes.len(), f.regions.len());
+                let enc = f.regions.iter().filter(|r| r.kind == "enc").count();
+                let mut encs = String::new();
+                if f.fmt == "parquet" {
+                    if let Ok(md) = parquet::file::metadata::ParquetMetaDataReader::new().parse_and_finish(&bytes::Bytes::from(f.bytes.clone())) {
+                        for col in md.row_group(0).columns() {
+                            encs.push_str(&format!(" {}:{:?}", col.column_path(), col.encodings().collect::<Vec<_>>()));
+                        }
+                    }
+                }
+                println!("{} {} {} bytes {} regions {enc} enc{encs}", f.fmt, f.name, f.bytes.len(), f.regions.len());
             }
         }
         other => {
